@@ -544,6 +544,10 @@ def h_hybrid(mod, width, runs, itemsize, cap, prefix_len=False, pad_header=0, **
 def _zz_varint(prefix, nbytes):
     """symbolic zigzag varint of exactly nbytes; returns (bytes, signed 64-bit value term)"""
     bs, pay = varint_bytes(prefix, nbytes)
+    if nbytes == 10:
+        # the 10th byte of a 64-bit varint carries a single bit (well-formed stream)
+        pay[9] = z3.ZeroExt(6, z3.Extract(0, 0, pay[9]))
+        bs[9] = z3.Concat(z3.BitVecVal(0, 1), pay[9])
     u = varint_value(pay)
     return bs, simp(z3.LShR(u, 1) ^ (-(u & 1))), pay
 
@@ -589,9 +593,11 @@ def h_delta(mod, block, minis, count, longval, widths, vlen=2, dlen=2, cap=None,
     o = k.numpyio("o", ob, capb)
     oa = k.optargs("delta_binary_unpack", [1 if longval else 0])
     shape = dict(kernel="delta_binary_unpack", block=block, minis=minis, count=count, longval=int(longval),
-                 widths=[list(w) for w in widths], maxwidth=max([max(w) for w in widths] + [0]), cap=capb // isz)
-    out = Outcome("delta[B=%d,M=%d,n=%d,%s,w=%s]" % (block, minis, count, "i64" if longval else "i32",
-                                                     "/".join(",".join(map(str, w)) for w in widths)),
+                 widths=[list(w) for w in widths], maxwidth=max([max(w) for w in widths] + [0]), cap=capb // isz,
+                 vlen=vlen, dlen=dlen)
+    out = Outcome("delta[B=%d,M=%d,n=%d,%s,w=%s,v%d,d%d]" % (block, minis, count, "i64" if longval else "i32",
+                                                             "/".join(",".join(map(str, w)) for w in widths),
+                                                             vlen, dlen),
                   k, shape, [])
 
     def wit(m):
